@@ -205,8 +205,8 @@ pub fn check() -> PropertyCheck {
             "only addresses at TTLs up to the round's reported path length belong to the flow",
         ],
         subs: vec![
-            Box::new(Pbt { name: "flows", quick: 150_000, thorough: 3_000_000, strat, test, max_shrink: 8000 }),
-            Box::new(Pbt { name: "flows-wide", quick: 8_000, thorough: 200_000, strat: wide_strat, test, max_shrink: 5000 }),
+            Box::new(Pbt { name: "flows", quick: 150_000, thorough: 10_000_000, strat, test, max_shrink: 8000 }),
+            Box::new(Pbt { name: "flows-wide", quick: 8_000, thorough: 800_000, strat: wide_strat, test, max_shrink: 5000 }),
         ],
     }
 }
